@@ -36,6 +36,33 @@ func Quiet() {
 	syslog.Level(syslog.LvFatal)
 }
 
+// FmtLogger is a container logger at the most verbose level that FORMATS every message (so that String(), Error()
+// and %v of whatever the library logs are really evaluated, as under a debug or trace log level) and throws the text
+// away.  Panic / Panicf panic like the library's own logger does at every level up to LvPanic.
+type FmtLogger struct{}
+
+func (l FmtLogger) Level(syslog.Lv) syslog.Logger { return l }
+func (l FmtLogger) Pref(any) syslog.Logger        { return l }
+func fmtDiscard(v ...any)                         { _, _ = fmt.Fprintln(io.Discard, v...) }
+func fmtDiscardf(f string, v ...any)              { _, _ = fmt.Fprintf(io.Discard, f, v...) }
+func (FmtLogger) Trace(v ...any)                  { fmtDiscard(v...) }
+func (FmtLogger) Tracef(f string, v ...any)       { fmtDiscardf(f, v...) }
+func (FmtLogger) Debug(v ...any)                  { fmtDiscard(v...) }
+func (FmtLogger) Debugf(f string, v ...any)       { fmtDiscardf(f, v...) }
+func (FmtLogger) Info(v ...any)                   { fmtDiscard(v...) }
+func (FmtLogger) Infof(f string, v ...any)        { fmtDiscardf(f, v...) }
+func (FmtLogger) Warn(v ...any)                   { fmtDiscard(v...) }
+func (FmtLogger) Warnf(f string, v ...any)        { fmtDiscardf(f, v...) }
+func (FmtLogger) Error(v ...any)                  { fmtDiscard(v...) }
+func (FmtLogger) Errorf(f string, v ...any)       { fmtDiscardf(f, v...) }
+func (FmtLogger) Panic(v ...any)                  { fmtDiscard(v...); panic(v) }
+func (FmtLogger) Panicf(f string, v ...any)       { panic(fmt.Sprintf(f, v...)) }
+func (FmtLogger) Fatal(v ...any)                  { fmtDiscard(v...); panic(v) }
+func (FmtLogger) Fatalf(f string, v ...any)       { panic(fmt.Sprintf(f, v...)) }
+
+// Verbose installs FmtLogger.  Call it once at process start: the library caches its prefixed loggers.
+func Verbose() { syslog.SetLogger(FmtLogger{}) }
+
 // Guard runs f and converts a panic into a string ("" = no panic).
 func Guard(f func()) (panicked string) {
 	defer func() {
